@@ -4,6 +4,8 @@ use crate::{c10, util::*, Opts};
 pub fn exec(c: &[i64]) -> Vec<i64> { if c[0] == 100 { crate::authrig::exec(&c[1..]) } else { crate::units::exec(c) } }
 pub fn gen(o: &Opts, sink: &mut dyn FnMut(Vec<i64>, String)) {
     crate::units::gen_mode(o, 1, sink);
+    // every field sweep of the decoding property as well (all status / state / error words of every driver): no value of any field panics
+    crate::units::gen_mode(o, 2, sink);
     let mut k: u64 = 0;
     let mut rng = Rng::new(o.seed, 6_100);
     let confs: [Vec<(i64, i64, Option<i64>, i64)>; 3] = [
